@@ -16,8 +16,8 @@ theorem cellLen_flatten (cw : Char → Nat) (ts : List Str) :
   | nil => simp [cellLen]
   | cons t ts ih => simp [cellLen_append, ih]
 
-theorem checkLoop_eq (cw : Char → Nat) (m : Nat) (ts : List Str) (s : Nat) (hne : ts ≠ []) :
-    Node.checkLoop cw m s ts = decide (s + (ts.map (cellLen cw)).sum ≤ m) := by
+theorem checkLoop_eq (cw : Char → Nat) (m : Int) (ts : List Str) (s : Nat) (hne : ts ≠ []) :
+    Node.checkLoop cw m s ts = decide (((s + (ts.map (cellLen cw)).sum : Nat) : Int) ≤ m) := by
   induction ts generalizing s with
   | nil => exact absurd rfl hne
   | cons t ts ih =>
@@ -36,15 +36,15 @@ theorem Node.tokens_ne_nil_of_container (n : Node) (h : n.isContainer = true) : 
     rw [Node.tokens]
     by_cases hv : vr.isEmpty <;> by_cases hc : ch.isEmpty <;> simp [hv, hc]
 
-theorem Node.checkLength_iff (cw : Char → Nat) (n : Node) (s m : Nat) (h : n.isContainer = true) :
-    n.checkLength cw s m = true ↔ s + cellLen cw n.str ≤ m := by
+theorem Node.checkLength_iff (cw : Char → Nat) (n : Node) (s : Nat) (m : Int) (h : n.isContainer = true) :
+    n.checkLength cw s m = true ↔ ((s + cellLen cw n.str : Nat) : Int) ≤ m := by
   simp [Node.checkLength, checkLoop_eq _ _ _ _ (Node.tokens_ne_nil_of_container n h), Node.str, cellLen_flatten]
 
 structure Cfg where
   cw : Char → Nat
   v : Variant
-  w : Nat
-  ind : Nat
+  w : Int
+  ind : Int
   ea : Bool
 
 mutual
@@ -52,7 +52,7 @@ def specLine (c : Cfg) (l : Line) : Node → List Line
   | .mk k vr o cl e la t ic ch =>
     if ic && !ch.isEmpty && !l.expanded && mustExpand c.cw c.w c.ea l (.mk k vr o cl e la t ic ch) then
       l.expandHead (.mk k vr o cl e la t ic ch) ::
-        (specKids c (l.whitespace ++ List.replicate c.ind ' ') (t && ch.length == 1) ch
+        (specKids c (l.whitespace ++ List.replicate c.ind.toNat ' ') (t && ch.length == 1) ch
           ++ [l.expandClose c.v (.mk k vr o cl e la t ic ch)])
     else [l]
 def specKids (c : Cfg) (ws : Str) (one : Bool) : List Node → List Line
@@ -197,7 +197,7 @@ theorem specLine_compact (c : Cfg) (hv : c.v.dropSuffix = false) :
         rcases hw.1.2 with h | h
         · simp [hic, hch] at h
         · exact h
-      have hk := specKids_compact c hv ch (l.whitespace ++ List.replicate c.ind ' ') (t && ch.length == 1) hw.2
+      have hk := specKids_compact c hv ch (l.whitespace ++ List.replicate c.ind.toNat ' ') (t && ch.length == 1) hw.2
       simp only [List.map_cons, List.map_append, List.flatten_cons, List.flatten_append, hk]
       simp [Line.compact, Line.expandHead, Line.expandClose, hv, hn, Node.compact, Node.flat, hvr, hic, hch,
         Node.keyRepr, Node.openBrace, Node.closeBrace, ht]
@@ -262,8 +262,8 @@ theorem specLine_cases (c : Cfg) (l : Line) (n : Node) :
 
 theorem cellLen_nil (cw : Char → Nat) : cellLen cw [] = 0 := rfl
 
-theorem mustExpand_root (cw : Char → Nat) (w : Nat) (ea : Bool) (n : Node) (hc : n.isContainer = true) :
-    mustExpand cw w ea (rootLine n) n = true ↔ (ea = true ∨ w < cellLen cw n.str) := by
+theorem mustExpand_root (cw : Char → Nat) (w : Int) (ea : Bool) (n : Node) (hc : n.isContainer = true) :
+    mustExpand cw w ea (rootLine n) n = true ↔ (ea = true ∨ w < (cellLen cw n.str : Int)) := by
   unfold mustExpand Line.checkLength
   have := Node.checkLength_iff cw n 0 w hc
   simp only [rootLine, List.length_nil, cellLen_nil, Nat.add_zero, Bool.or_eq_true, Bool.not_eq_true']
@@ -318,7 +318,7 @@ end
 mutual
 theorem specLine_indent (c : Cfg) :
     ∀ (n : Node) (l : Line), ∀ l' ∈ specLine c l n,
-      ∃ d, l'.whitespace = l.whitespace ++ List.replicate (d * c.ind) ' '
+      ∃ d, l'.whitespace = l.whitespace ++ List.replicate (d * c.ind.toNat) ' '
   | .mk k vr o cl e la t ic ch, l, l', hl' => by
     rw [specLine] at hl'
     split at hl'
@@ -332,7 +332,7 @@ theorem specLine_indent (c : Cfg) :
       exact ⟨0, by simp [hl']⟩
 theorem specKids_indent (c : Cfg) :
     ∀ (ch : List Node) (ws : Str) (one : Bool), ∀ l' ∈ specKids c ws one ch,
-      ∃ d, l'.whitespace = ws ++ List.replicate (d * c.ind) ' '
+      ∃ d, l'.whitespace = ws ++ List.replicate (d * c.ind.toNat) ' '
   | [], _, _, l', hl' => by simp [specKids] at hl'
   | x :: xs, ws, one, l', hl' => by
     rw [specKids, List.mem_append] at hl'
@@ -343,7 +343,7 @@ end
 
 
 /-! the loop result as the specification of the root line -/
-theorem renderLines_eq_spec (cw : Char → Nat) (v : Variant) (n : Node) (w ind : Nat) (ea : Bool) :
+theorem renderLines_eq_spec (cw : Char → Nat) (v : Variant) (n : Node) (w ind : Int) (ea : Bool) :
     renderLines cw v n w ind ea = specLine ⟨cw, v, w, ind, ea⟩ (rootLine n) n := by
   have := renderLoop_eq_spec ⟨cw, v, w, ind, ea⟩ [rootLine n] []
   simp only [List.reverse_nil, List.nil_append, List.flatMap_cons, List.flatMap_nil, List.append_nil] at this
@@ -351,7 +351,7 @@ theorem renderLines_eq_spec (cw : Char → Nat) (v : Variant) (n : Node) (w ind 
   simp [specOf, rootLine]
 
 /-! the loop as an iteration with an explicit step budget -/
-def renderLoopFuel (cw : Char → Nat) (v : Variant) (maxWidth indentSize : Nat) (expandAll : Bool) :
+def renderLoopFuel (cw : Char → Nat) (v : Variant) (maxWidth indentSize : Int) (expandAll : Bool) :
     Nat → List Line → List Line → Option (List Line)
   | 0, _, _ => none
   | _ + 1, [], done => some done.reverse
@@ -365,7 +365,7 @@ def renderLoopFuel (cw : Char → Nat) (v : Variant) (maxWidth indentSize : Nat)
 
 theorem Line.weight_pos (l : Line) : 0 < l.weight := by unfold Line.weight; split <;> omega
 
-theorem renderLoopFuel_eq (cw : Char → Nat) (v : Variant) (w ind : Nat) (ea : Bool) (todo done : List Line) :
+theorem renderLoopFuel_eq (cw : Char → Nat) (v : Variant) (w ind : Int) (ea : Bool) (todo done : List Line) :
     ∀ fuel, todoWeight todo < fuel →
       renderLoopFuel cw v w ind ea fuel todo done = some (renderLoop cw v w ind ea todo done) := by
   fun_induction renderLoop cw v w ind ea todo done with
